@@ -31,6 +31,7 @@ pub trait TemplateRegistry: Sized {
         // register common filters
         tera.register_filter("escape_js", escape_js_filter);
         tera.register_filter("add_types_prefix", add_types_prefix_filter);
+        tera.register_filter("property_key", property_key_filter);
 
         // register registry specific templates
         Self::register_templates(&mut tera)?;
@@ -77,6 +78,33 @@ fn add_types_prefix_filter(value: &Value, _args: &HashMap<String, Value>) -> ter
         Ok(Value::String(prefixed))
     } else {
         Err("add_types_prefix filter expects a string".into())
+    }
+}
+
+/// Filter to print an object property key: an identifier as it is, any other text (a kebab-case
+/// rename such as `user-id`, a key starting with a digit) as a quoted string
+fn property_key_filter(value: &Value, _args: &HashMap<String, Value>) -> tera::Result<Value> {
+    if let Some(key) = value.as_str() {
+        Ok(Value::String(property_key(key)))
+    } else {
+        Err("property_key filter expects a string".into())
+    }
+}
+
+/// A property key in the form TypeScript accepts in interfaces and object literals
+fn property_key(key: &str) -> String {
+    let mut chars = key.chars();
+    let is_identifier = match chars.next() {
+        Some(first) => {
+            (first.is_ascii_alphabetic() || first == '_' || first == '$')
+                && chars.all(|c| c.is_ascii_alphanumeric() || c == '_' || c == '$')
+        }
+        None => false,
+    };
+    if is_identifier {
+        key.to_string()
+    } else {
+        format!("\"{}\"", key.replace('\\', "\\\\").replace('"', "\\\""))
     }
 }
 
